@@ -55,6 +55,7 @@ func genC18(seed uint64, tier string) *Plan {
 		scan.Sub = append(scan.Sub, pause)
 	}
 	p.Ops = append(p.Ops, scan)
+	maybeYield(r, p, 0.4)
 	return p
 }
 
